@@ -733,6 +733,9 @@ func (n *ExtendsNode) Render(w io.Writer, ctx *RenderContext) error {
 	// the child inherits from an enclosing context (an included template)
 	parentCtx.parent = ctx.parent
 
+	// A template reached from a sandboxed include stays sandboxed
+	parentCtx.sandboxed = ctx.sandboxed
+
 	// Pass along the parent template as lastLoadedTemplate for relative path resolution
 	parentCtx.lastLoadedTemplate = parentTemplate
 
@@ -1135,6 +1138,7 @@ func (n *MacroNode) CallMacro(w io.Writer, ctx *RenderContext, args ...interface
 	// Create a new context for the macro
 	macroCtx := NewRenderContext(ctx.env, nil, ctx.engine)
 	macroCtx.parent = ctx
+	macroCtx.sandboxed = ctx.sandboxed // macros called from a sandbox run in it
 
 	// Ensure context is released even in error paths
 	defer macroCtx.Release()
@@ -1243,6 +1247,7 @@ func (n *ImportNode) Render(w io.Writer, ctx *RenderContext) error {
 
 	// Create a new context for the imported template
 	importCtx := NewRenderContext(ctx.env, nil, ctx.engine)
+	importCtx.sandboxed = ctx.sandboxed // imports made from a sandbox stay in it
 	// Set the template as the lastLoadedTemplate for relative path resolutionn	importCtx.lastLoadedTemplate = template
 
 	// Ensure context is released even in error paths
@@ -1334,6 +1339,7 @@ func (n *FromImportNode) Render(w io.Writer, ctx *RenderContext) error {
 
 	// Create a new context for the imported template
 	importCtx := NewRenderContext(ctx.env, nil, ctx.engine)
+	importCtx.sandboxed = ctx.sandboxed // imports made from a sandbox stay in it
 	// Set the template as the lastLoadedTemplate for relative path resolutionn	importCtx.lastLoadedTemplate = template
 
 	// Ensure context is released even in error paths
